@@ -12,6 +12,7 @@
 import logging
 
 from harness import common, ref
+from harness.c19 import der_sig
 from harness.common import Check, blist, tier
 
 PID = 'C01'
@@ -35,6 +36,7 @@ def eval_term(t):
     raise common.MachineryError('unknown term %r' % (t.get('t'),))
 
 
+HASH_TYPES = [2, 3, 0x81, 0x82, 0x83]
 NONMINIMAL = {
     'pushdata1-20': lambda idx: b'\x6a\x4c\x14' + bytes([idx % 256]) * 20,
     'pushdata2-4': lambda idx: b'\x6a\x4d\x04\x00' + idx.to_bytes(4, 'big'),
@@ -206,6 +208,42 @@ def run_shape(job):
         except Exception as e:
             out['reparsed'] = ['raised %r' % e] * len(ins)
             out['reparsed_verify'] = None
+        # ---- BIP143 with the other hash types (witness inputs): the digest the library checks against, on the built and on the
+        # re-parsed transaction, and verify() of the serialized transaction carrying such a signature
+        out['ht'] = {}
+        for ht in HASH_TYPES:
+            row = []
+            for n, i in enumerate(ins):
+                if i['kind'] not in SEGWIT:
+                    row.append(None)
+                    continue
+                try:
+                    a = t.signature_hash(n, ht, witness_type=t.inputs[n].witness_type).hex()
+                    b = t2.signature_hash(n, ht, witness_type=t2.inputs[n].witness_type).hex()
+                    row.append([a, b])
+                except Exception as e:
+                    row.append(['raised %r' % e, ''])
+            out['ht'][str(ht)] = row
+        out['ht_verify'] = []
+        for n, i in enumerate(ins):
+            if i['kind'] not in ('p2wpkh', 'p2sh-p2wpkh') or not t.inputs[n].signatures:
+                continue
+            ht = HASH_TYPES[(idx + n) % len(HASH_TYPES)]
+            old = t.inputs[n].signatures[0].as_der_encoded()
+            try:
+                z_ht = t.signature_hash(n, ht, witness_type=t.inputs[n].witness_type)
+                z_all = t.signature_hash(n, 1, witness_type=t.inputs[n].witness_type)
+                res = []
+                for z in (z_ht, z_all):
+                    new = der_sig(i['privs'][0], z)[:-1] + bytes([ht])
+                    raw3 = raw.replace(bytes([len(old)]) + old, bytes([len(new)]) + new, 1)
+                    t3 = Transaction.parse(raw3, strict=False, network=net)
+                    for m, x in enumerate(ins):
+                        t3.inputs[m].value = x['amount']
+                    res.append(bool(t3.verify()) if raw3 != raw else None)
+                out['ht_verify'].append([n, ht, res[0], res[1]])
+            except Exception as e:
+                out['ht_verify'].append([n, ht, 'raised %r' % e, None])
         # ---- second phase: the transaction is changed through the library's own mutators, then signed again
         mut = rng.choice(['locktime_blocks', 'locktime_time', 'rel_blocks', 'rel_time', 'add_output', 'out_value', 'add_input', 'none'])
         out['mutation'] = mut
@@ -255,7 +293,28 @@ def spec_record(sh, res):
         pubs = [bytes.fromhex(p) for p in pubs]
         meta.append({'kind': i['kind'], 'amount': blist(le(i['amount'], 8)), 'pkh': blist(ref.hash160(pubs[0])),
                      'pub': blist(pubs[0]), 'keys': [blist(p) for p in pubs], 'm': i['m']})
-    return {'raw': blist(bytes.fromhex(res['raw'])), 'meta': meta}
+    return {'raw': blist(bytes.fromhex(res['raw'])), 'meta': meta, 'hts': HASH_TYPES}
+
+
+def published_vectors():
+    """The specification against the sigHash values published in BIP143 (P2SH-P2WSH 6-of-6 example, all six hash types):
+    a disagreement here is an error of the specification, i.e. of the machinery."""
+    raw = bytes.fromhex('010000000136641869ca081e70f394c6948e8af409e18b619df2ed74aa106c1ca29787b96e0100000000ffffffff0200e9a435000000001976a914'
+                        '389ffce9cd9ae88dcc0631e88a821ffdbe9bfe2688acc0832f05000000001976a9147480a33f950689af511e6e84c138dbbd3c3ee41588ac00000000')
+    keys = [bytes.fromhex(k) for k in (
+        '0307b8ae49ac90a048e9b53357a2354b3334e9c8bee813ecb98e99a7e07e8c3ba3', '03b28f0c28bfab54554ae8c658ac5c3e0ce6e79ad336331f78c428dd43eea8449b',
+        '034b8113d703413d57761b8b9781957b8c0ac1dfe69f492580ca4195f50376ba4a', '033400f6afecb833092a9a21cfdf1ed1376e58c5d1f47de74683123987e967a8f4',
+        '03a6d48b1131e94ba04d9737d61acdaa1322008af9602b3b14862c07a1789aac16', '02d8b661b0b3302ee2f162b09e07a55ad5dfbe673a9f01d9f0c19617681024306b')]
+    meta = [{'kind': 'p2sh-p2wsh-multisig', 'amount': blist((987654321).to_bytes(8, 'little')), 'pkh': blist(ref.hash160(keys[0])),
+             'pub': blist(keys[0]), 'keys': [blist(k) for k in keys], 'm': 6}]
+    hts = [1, 2, 3, 0x81, 0x82, 0x83]
+    want = ['185c0be5263dce5b4bb50a047973c1b6272bfbd0103a89444597dc40b248ee7c', 'e9733bc60ea13c95c6527066bb975a2ff29a925e80aa14c213f686cbae5d2f36',
+            '1e1f1c303dc025bd664acb72e583e933fae4cff9148bf78c157d1e8f78530aea', '2a67f03e63a6a422125878b40b82da593be8d4efaafe88ee528af6e5a9955c6e',
+            '781ba15f3779d5542ce8ecb5c18716733a5ee42a6f51488ec96154934e2c890a', '511e8e52ed574121fc1b654970395502128263f62662e076dc6baf05c2e6a99b']
+    out = common.tlc_eval('SigHashEval', [{'raw': blist(raw), 'meta': meta, 'hts': hts}])[0]
+    got = [eval_term(out['ht'][0][h]).hex() for h in range(6)] + [eval_term(out['digests'][0]).hex()]
+    if got != want + [want[0]]:
+        raise common.MachineryError('SigHash.tla disagrees with the sigHash values published in BIP143: %s' % got)
 
 
 def run(replay=None):
@@ -267,7 +326,10 @@ def run(replay=None):
                'network; 4 observations per input (digest before signing, signatures under reference ECDSA, digest after '
                'signing, digest after raw()/parse round trip); class = (kind of the signed input, position, number of inputs, '
                'kinds of the other inputs as a set, output-count class)')
-    ck.assumptions = ['sha256d / hash160 / ECDSA verification from harness/ref.py', 'SIGHASH_ALL only (sign() refuses others)',
+    published_vectors()
+    ck.assumptions = ['sha256d / hash160 / ECDSA verification from harness/ref.py',
+                      'signing: SIGHASH_ALL only (sign() refuses others); checking: BIP143 digests of witness inputs for hash types 02, 03, 81, 82, '
+                      '83 as well (legacy inputs: the property names the SIGHASH_ALL preimage only)',
                       'output scripts are taken from the built transaction (their correctness is C05)',
                       'bare multisig inputs cannot be built through the API and are not covered; key order = order supplied']
     ck.model(common.model_check('MC_SigHash', 'MC_SigHash.cfg', coverage=False))
@@ -310,6 +372,15 @@ def run(replay=None):
                     continue        # a raw transaction does not carry the public key of a P2PK output: nothing to compare
                 if r[label][n] != digest.hex():
                     ck.violation(None, 'clause digest-%s; %s: signature_hash = %s, consensus digest = %s' % (label, where, r[label][n], digest.hex()), case)
+            if i['kind'] in SEGWIT and 'ht' in r:
+                for h, ht in enumerate(HASH_TYPES):
+                    want = eval_term(sp['ht'][n][h]).hex()
+                    got = r['ht'][str(ht)][n]
+                    ck.case(('hash-type', i['kind'], ht, n, min(len(sh['outs']), 3)))
+                    for lab, g in zip(('built', 'reparsed'), got):
+                        if g != want:
+                            ck.violation(None, 'clause digest-hash-type; %s, hash type 0x%02x, %s transaction: signature_hash = %s, BIP143 digest = %s'
+                                         % (where, ht, lab, g, want), case)
             z = int.from_bytes(digest, 'big')
             pubs = [ref.parse_point(bytes.fromhex(p)) for p in r['pubs'][n]]
             nvalid = 0
@@ -322,6 +393,13 @@ def run(replay=None):
                                  'consensus digest with any key of the input' % where, case)
             if nvalid < i['m']:
                 ck.violation(None, 'clause too-few-signatures; %s: %d valid signatures after signing with m keys' % (where, nvalid), case)
+        # (a re-parsed transaction with a P2PK input cannot verify as a whole: the raw bytes do not carry that public key)
+        for n, ht, ok_ht, ok_all in (r.get('ht_verify', []) if 'p2pk' not in kinds else []):
+            where = 'input %d (%s) of %s on %s, witness signature with hash type 0x%02x' % (n, sh['ins'][n]['kind'], kinds, sh['net'], ht)
+            if ok_ht is not True:
+                ck.violation(None, 'clause verify-hash-type; %s made over the BIP143 digest of that hash type: verify() = %s' % (where, ok_ht), case)
+            if ok_all is not False and ok_all is not None:
+                ck.violation(None, 'clause verify-hash-type-unsound; %s made over the SIGHASH_ALL digest: verify() = %s' % (where, ok_all), case)
         if r.get('reparsed_verify') is False and 'p2pk' not in kinds:
             ck.violation(None, 'clause reparsed-verify; %s on %s: raw() re-parsed (values restored) does not verify' % (kinds, sh['net']), case)
     # ---- second phase: after a change through the library's mutators and re-signing
